@@ -191,18 +191,23 @@ def check_many(ctx, fi):
         raise AnalysisError('calculate_many_marginals: loop over the requested projections not found')
     p = U(loops[0].target)
     n = 0
+    rets = [r for r in walk_shallow(fi.node) if isinstance(r, ast.Return)]
+    answers = U(rets[-1].value) if rets and isinstance(rets[-1].value, ast.Name) else 'answers'      # the container that is returned
     for s in ast.walk(loops[0]):
-        if isinstance(s, ast.Assign) and isinstance(s.targets[0], ast.Subscript) and U(s.targets[0].value) == 'answers':
+        if isinstance(s, ast.Assign) and isinstance(s.targets[0], ast.Subscript) and U(s.targets[0].value) == answers:
             n += 1
             v = s.value
             ok = U(s.targets[0].slice) == p and isinstance(v, ast.Call) and isinstance(v.func, ast.Attribute) \
                 and v.func.attr == 'project' and len(v.args) == 1 and U(v.args[0]) == p
             ctx.ob('requested-order', fi, s, ok, 'each requested projection is answered under its own key through .project(%s)' % p)
     ctx.floor('answer stores in calculate_many_marginals', n, 2)
-    rets = [r for r in walk_shallow(fi.node) if isinstance(r, ast.Return)]
-    ctx.ob('requested-order', fi, rets[-1], U(rets[-1].value) == 'answers', 'returns the answers dictionary')
+    inits = [s_ for s_ in fi.body if isinstance(s_, ast.Assign) and len(s_.targets) == 1 and U(s_.targets[0]) == answers
+             and U(s_.value).replace(' ', '') in ('{}', 'dict()')]
+    ctx.ob('requested-order', fi, rets[-1], bool(inits) and n > 0, 'returns the answers dictionary (`%s`, filled per requested projection)' % answers)
     # a pairwise result may answer only requests it contains
-    ok = any(isinstance(x, ast.If) and U(x.test).replace(' ', '') == 'set(%s)<=set(attr)' % p for x in ast.walk(loops[0]))
+    from .C14 import is_subset_test
+    ok = any(isinstance(x, ast.If) and isinstance(getattr(x, '_parent', None), ast.For) and isinstance(x._parent.target, ast.Name)
+             and is_subset_test(x.test, p, x._parent.target.id) for x in ast.walk(loops[0]))
     ctx.ob('requested-order', fi, loops[0], ok, 'a pairwise joint answers only requests it contains')
 
 
